@@ -892,5 +892,5 @@ static void one_case(vh::Ctx & c, uint64_t idx)
 
 int main(int argc, char ** argv)
 {
-  return vh::run(argc, argv, "C10", {400000, 60000000}, one_case);
+  return vh::run(argc, argv, "C10", {2000000, 60000000}, one_case);
 }
